@@ -44,7 +44,7 @@ def weave_raw_leaves(u):
              'old(w).solo ==> (r.is_ok() ==> final(w).files == old(w).files.remove(pv(path)) && final(w).dirs == old(w).dirs '
              '&& final(w).inodes == old(w).inodes && final(w).hard_faults == old(w).hard_faults)'),
             ('C05 C18:error-means-hard-fault', 'old(w).solo ==> (r.is_err() ==> final(w).hard_faults > old(w).hard_faults && final(w).same_fs(*old(w)))'),
-            ('', 'final(w).stepped(*old(w)) && final(w).now == old(w).now && final(w).published == old(w).published'),
+            ('', 'final(w).stepped(*old(w)) && final(w).now == old(w).now && final(w).published == old(w).published && final(w).listed == old(w).listed'),
         ])
 
     # spec helper that mentions the crate's own constant
@@ -88,7 +88,7 @@ pub proof fn lemma_stamped_unread(ino: Inode, t: int, gran: int)
 }
 ''')
 
-    BOOK = ('', 'final(w).kept(*old(w))')
+    BOOK = ('', 'final(w).kept(*old(w)) && final(w).listed == old(w).listed')
     INV = ('C02 C18:valid-on-every-exit', 'final(w).inv()')
 
     f = u.under_contract(u.item('src/raw_cache.rs', ['fn move_to_back_of_list']), ['C09', 'C07', 'C02', 'C18', 'C06', 'C20', 'C05'])
@@ -253,7 +253,7 @@ pub proof fn lemma_stamped_unread(ino: Inode, t: int, gran: int)
 
 def weave_maintenance(u):
     """collect_cached_files / apply_update / prune (C07 C17) on top of the planner's contract (U1)."""
-    u.text('use crate::second_chance;\nuse crate::std::fs::DirEntry;\n')
+    u.text('use crate::second_chance;\nuse crate::second_chance::Entry;\nuse crate::std::fs::DirEntry;\n')
     INV = ('C02 C18:valid-on-every-exit', 'final(w).inv()')
     BOOK = ('', 'final(w).kept(*old(w))')
 
@@ -286,6 +286,7 @@ def weave_maintenance(u):
 pub open spec fn record_ok(c: CachedFile, w: World, dir: PathV) -> bool {
     &&& c.entry.dir() == dir
     &&& single_component(c.entry.name())
+    &&& c.entry.name()[0] != 0x2e   // C17: dot-prefixed files are never records
     &&& w.files.contains_key(child(dir, c.entry.name()))
     &&& c.mtime.wf()
     &&& c.mtime.ns() == w.inode_at(child(dir, c.entry.name())).mtime
@@ -299,7 +300,7 @@ pub open spec fn from_prefix(cache: Seq<CachedFile>, l0: Seq<Option<Seq<u8>>>, k
 
 /// Among the first k items of the listing (none of which failed), every regular file is recorded.
 pub open spec fn prefix_complete(cache: Seq<CachedFile>, l0: Seq<Option<Seq<u8>>>, k: int, w: World, dir: PathV) -> bool {
-    forall|j: int| 0 <= j < k ==> (#[trigger] l0[j]).is_some() && (w.files.contains_key(child(dir, l0[j].unwrap())) ==> exists|i: int|
+    forall|j: int| 0 <= j < k ==> (#[trigger] l0[j]).is_some() && (w.files.contains_key(child(dir, l0[j].unwrap())) && l0[j].unwrap()[0] != 0x2e ==> exists|i: int|
         0 <= i < cache.len() && (#[trigger] cache[i]).entry.name() == l0[j].unwrap())
 }
 
@@ -308,7 +309,7 @@ pub proof fn lemma_skip_item(cache: Seq<CachedFile>, l0: Seq<Option<Seq<u8>>>, k
         0 < k <= l0.len(),
         from_prefix(cache, l0, k - 1),
         complete ==> prefix_complete(cache, l0, k - 1, w, dir),
-        complete ==> l0[k - 1].is_some() && !w.files.contains_key(child(dir, l0[k - 1].unwrap())),
+        complete ==> l0[k - 1].is_some() && (!w.files.contains_key(child(dir, l0[k - 1].unwrap())) || l0[k - 1].unwrap()[0] == 0x2e),
     ensures
         from_prefix(cache, l0, k),
         complete ==> prefix_complete(cache, l0, k, w, dir),
@@ -357,10 +358,10 @@ pub proof fn lemma_push_record(c0: Seq<CachedFile>, c: CachedFile, l0: Seq<Optio
         }
     }
     if complete {
-        assert forall|j: int| 0 <= j < k implies (#[trigger] l0[j]).is_some() && (w.files.contains_key(child(dir, l0[j].unwrap())) ==> exists|i: int|
+        assert forall|j: int| 0 <= j < k implies (#[trigger] l0[j]).is_some() && (w.files.contains_key(child(dir, l0[j].unwrap())) && l0[j].unwrap()[0] != 0x2e ==> exists|i: int|
             0 <= i < c1.len() && (#[trigger] c1[i]).entry.name() == l0[j].unwrap()) by {
             if j < k - 1 {
-                if w.files.contains_key(child(dir, l0[j].unwrap())) {
+                if w.files.contains_key(child(dir, l0[j].unwrap())) && l0[j].unwrap()[0] != 0x2e {
                     let i = choose|i: int| 0 <= i < c0.len() && (#[trigger] c0[i]).entry.name() == l0[j].unwrap();
                     assert(c1[i] == c0[i]);
                 }
@@ -371,9 +372,9 @@ pub proof fn lemma_push_record(c0: Seq<CachedFile>, c: CachedFile, l0: Seq<Optio
     }
 }
 
-/// Every regular file directly inside `dir` has a record.
+/// Every regular file directly inside `dir` and outside the dot namespace has a record.
 pub open spec fn all_files_recorded(cache: Seq<CachedFile>, w: World, dir: PathV) -> bool {
-    forall|n: Seq<u8>| #[trigger] w.files.contains_key(child(dir, n)) ==> exists|i: int| 0 <= i < cache.len() && (#[trigger] cache[i]).entry.name() == n
+    forall|n: Seq<u8>| #[trigger] w.files.contains_key(child(dir, n)) && n.len() > 0 && n[0] != 0x2e ==> exists|i: int| 0 <= i < cache.len() && (#[trigger] cache[i]).entry.name() == n
 }
 
 pub proof fn lemma_listing_complete(cache: Seq<CachedFile>, l0: Seq<Option<Seq<u8>>>, w: World, dir: PathV)
@@ -383,7 +384,7 @@ pub proof fn lemma_listing_complete(cache: Seq<CachedFile>, l0: Seq<Option<Seq<u
     ensures
         all_files_recorded(cache, w, dir),
 {
-    assert forall|n: Seq<u8>| #[trigger] w.files.contains_key(child(dir, n)) implies exists|i: int| 0 <= i < cache.len() && (#[trigger] cache[i]).entry.name() == n by {
+    assert forall|n: Seq<u8>| #[trigger] w.files.contains_key(child(dir, n)) && n.len() > 0 && n[0] != 0x2e implies exists|i: int| 0 <= i < cache.len() && (#[trigger] cache[i]).entry.name() == n by {
         assert(forall|i: int| 0 <= i < l0.len() ==> (#[trigger] l0[i]).is_some());
         assert(l0.contains(Some(n)));
         let j = choose|j: int| 0 <= j < l0.len() && l0[j] == Some(n);
@@ -412,17 +413,20 @@ pub open spec fn records_ok(cache: Seq<CachedFile>, w: World, dir: PathV) -> boo
         ('', 'w.inv() && w.kept(*old(w)) && w.same_fs(*old(w)) && w.published == old(w).published && w.now == old(w).now'),
         ('', 'dir == pv(cache_dir) && kw_it.dir() == dir && listing_of(l0, *old(w), dir) && l0.len() < u64::MAX'),
         ('C07:scan-position', '0 <= k <= l0.len() && kw_it.rem() == l0.skip(k) && cache@.len() <= count <= k'),
+        ('C06:two-calls-per-directory-item', 'w.listed == old(w).listed + k && w.steps <= old(w).steps + 2 + 2 * k && w.opens == old(w).opens + 1'),
         ('C07 C17:every-record-is-a-listed-regular-file-with-its-times', 'records_ok(cache@, *old(w), dir)'),
         ('C07:records-come-from-the-scanned-prefix', 'from_prefix(cache@, l0, k)'),
         ('C07:scanned-prefix-is-complete-when-nothing-failed',
          'w.hard_faults == old(w).hard_faults ==> prefix_complete(cache@, l0, k, *old(w), dir)'),
-    ], ensures=[('', 'kw_it.rem().len() == 0')], decreases='kw_it.rem().len()')
+    ], invariant_except_break=[('C06:two-calls-per-directory-item', 'w.steps <= old(w).steps + 1 + 2 * k')],
+        ensures=[('', 'kw_it.rem().len() == 0')], decreases='kw_it.rem().len()')
     # proof steps at the four ways an item is disposed of
     cf.insert_before('continue', '{ proof { lemma_skip_item(cache@, l0, k, *old(w), dir, w.hard_faults == old(w).hard_faults); } ', nth=0)
     cf.insert_after('continue', ' }', nth=0)
     cf.insert_after('count -= 1 ;', '\n                proof { lemma_skip_item(cache@, l0, k, *old(w), dir, w.hard_faults == old(w).hard_faults); }')
     cf.insert_before('cache . push', 'let ghost c0 = cache@;\n                ')
     cf.insert_after('if let Ok ( entry ) = maybe_entry {', '\n            proof { assert(entry.name() == l0[k - 1].unwrap() && entry.dir() == dir); }')
+    cf.insert_after('Some ( b\'.\' ) ) ;', '\n            proof { assert(is_dotfile == (entry.name()[0] == 0x2e)); }')
     cf.insert_after('cache . push ( CachedFile :: new ( entry , & meta ) ) ;',
                     '\n                proof { lemma_push_record(c0, cache@.last(), l0, k, *old(w), dir, w.hard_faults == old(w).hard_faults); '
                     'assert(cache@ == c0.push(cache@.last())); }')
@@ -432,6 +436,7 @@ pub open spec fn records_ok(cache: Seq<CachedFile>, w: World, dir: PathV) -> boo
         ensures=[
             INV, BOOK,
             ('C15 C07:listing-changes-nothing', 'final(w).same_fs(*old(w)) && final(w).published == old(w).published && final(w).now == old(w).now'),
+            ('C06:two-calls-per-directory-item', 'final(w).steps <= old(w).steps + 2 + 2 * (final(w).listed - old(w).listed) && final(w).opens == old(w).opens + 1 && (r.is_ok() ==> r.unwrap().0@.len() <= final(w).listed - old(w).listed)'),
             ('C07 C17:every-record-is-a-listed-regular-file-with-its-times',
              'r.is_ok() ==> records_ok(r.unwrap().0@, *old(w), pv(cache_dir)) && r.unwrap().1 >= r.unwrap().0@.len()'),
             ('C07:listing-is-complete-when-nothing-failed',
@@ -617,7 +622,7 @@ pub proof fn lemma_restamped_prefix(old: World, a: World, b: World, mb: Seq<Cach
             INV, BOOK,
             ('C07 C17 C02:maintenance-frame-on-every-exit', 'maint_frame(*old(w), *final(w), update.to_evict@, update.to_move_back@)'),
             ('C07:plan-fully-applied', 'r.is_ok() && final(w).hard_faults == old(w).hard_faults ==> maint_done(*old(w), *final(w), update.to_evict@, update.to_move_back@)'),
-            ('C06:linear-number-of-filesystem-calls', 'final(w).steps <= old(w).steps + update.to_evict@.len() + update.to_move_back@.len() && final(w).opens == old(w).opens && final(w).published == old(w).published'),
+            ('C06:linear-number-of-filesystem-calls', 'final(w).steps <= old(w).steps + update.to_evict@.len() + update.to_move_back@.len() && final(w).opens == old(w).opens && final(w).published == old(w).published && final(w).listed == old(w).listed'),
             ('C05 C18:error-is-a-real-fault', 'r.is_err() ==> final(w).hard_faults > old(w).hard_faults'),
         ])
     au.body_start('broadcast use group_asref;\n    let ghost dir = pbv(parent);\n    let ghost ev = update.to_evict@;\n    let ghost mb = update.to_move_back@;')
@@ -627,7 +632,7 @@ pub proof fn lemma_restamped_prefix(old: World, a: World, b: World, mb: Seq<Cach
         ('', '(forall|n: Seq<u8>| !w.under_ro(#[trigger] child(dir, n))) && evictable_records(ev, dir) && evictable_records(mb, dir)'),
         ('C07 C17 C02:maintenance-frame-on-every-exit', 'maint_frame(*old(w), *w, ev, mb) && w.inodes == old(w).inodes && w.now == old(w).now'),
         ('C07:victims-so-far-are-gone', 'w.hard_faults == old(w).hard_faults ==> forall|i: int| 0 <= i < it1.index() ==> !w.files.contains_key(rpath(#[trigger] ev[i]))'),
-        ('C06:linear-number-of-filesystem-calls', 'w.steps <= old(w).steps + it1.index() && w.opens == old(w).opens && w.published == old(w).published'),
+        ('C06:linear-number-of-filesystem-calls', 'w.steps <= old(w).steps + it1.index() && w.opens == old(w).opens && w.published == old(w).published && w.listed == old(w).listed'),
     ])
     au.insert_before('cached . push', 'broadcast use group_asref;\n        proof { lemma_child(dir, entry.entry.name()); }\n        ', nth=0)
     au.insert_before('cached . push', 'broadcast use group_asref;\n        proof { lemma_child(dir, entry.entry.name()); }\n        ', nth=1)
@@ -644,7 +649,7 @@ pub proof fn lemma_restamped_prefix(old: World, a: World, b: World, mb: Seq<Cach
         ('C07 C09:reprieved-so-far-are-restamped',
          'w.hard_faults == old(w).hard_faults ==> forall|i: int| 0 <= i < it2.index() && w.files.contains_key(rpath(#[trigger] mb[i])) ==> '
          'restamped(old(w).inode_at(rpath(mb[i])), w.inode_at(rpath(mb[i])), *old(w), *w)'),
-        ('C06:linear-number-of-filesystem-calls', 'w.steps <= old(w).steps + ev.len() + it2.index() && w.opens == old(w).opens && w.published == old(w).published'),
+        ('C06:linear-number-of-filesystem-calls', 'w.steps <= old(w).steps + ev.len() + it2.index() && w.opens == old(w).opens && w.published == old(w).published && w.listed == old(w).listed'),
     ])
     au.insert_before('match move_to_back_of_list', 'let ghost wb = *w;\n        let ghost idx = it2.index() as int;\n        ')
     au.insert_after('Ok ( ( ) ) => {',
@@ -656,6 +661,169 @@ pub proof fn lemma_restamped_prefix(old: World, a: World, b: World, mb: Seq<Cach
     au.insert_before('err => err ?', '', nth=0)
     au.insert_after('err =>', ' { proof { lemma_frame_same_fs(*old(w), wb, *w, ev, mb); assert(idx < mb.len()); } ', nth=0)
     au.insert_after('err => err ?', ' }', nth=0)
+
+    u.text('''
+/// C17/C07/C02 on every exit of `prune`, without naming the plan: directories untouched, nothing created or
+/// re-bound, whatever disappeared or was re-stamped was a regular file directly inside `dir`, outside
+/// the dot namespace.
+pub open spec fn prune_frame(old: World, fin: World, dir: PathV) -> bool {
+    &&& fin.dirs == old.dirs
+    &&& forall|p: PathV| #[trigger] fin.files.contains_key(p) ==> old.files.contains_key(p) && fin.files[p] == old.files[p]
+    &&& forall|p: PathV| old.files.contains_key(p) && !(#[trigger] fin.files.contains_key(p)) ==> old.in_cache_namespace(p) && parent(p) == dir
+    &&& forall|ino: InodeId| #[trigger] old.inodes.contains_key(ino) ==> fin.inodes.contains_key(ino) && (fin.inodes[ino] == old.inodes[ino] || (restamped(
+        old.inodes[ino],
+        fin.inodes[ino],
+        old,
+        fin,
+    ) && exists|p: PathV| #[trigger] old.files.contains_key(p) && old.files[p] == ino && old.in_cache_namespace(p) && parent(p) == dir))
+}
+
+pub proof fn lemma_prune_frame(old: World, fin: World, dir: PathV, ev: Seq<CachedFile>, mb: Seq<CachedFile>)
+    requires
+        maint_frame(old, fin, ev, mb),
+        evictable_records(ev, dir),
+        evictable_records(mb, dir),
+        old.cache_dirs.contains(dir),
+    ensures
+        prune_frame(old, fin, dir),
+{
+    assert forall|p: PathV| old.files.contains_key(p) && !(#[trigger] fin.files.contains_key(p)) implies old.in_cache_namespace(p) && parent(p) == dir by {
+        let i = choose|i: int| 0 <= i < ev.len() && rpath(#[trigger] ev[i]) == p;
+        lemma_child(dir, ev[i].entry.name());
+    }
+    assert forall|ino: InodeId| #[trigger] old.inodes.contains_key(ino) implies fin.inodes.contains_key(ino) && (fin.inodes[ino] == old.inodes[ino] || (restamped(
+        old.inodes[ino],
+        fin.inodes[ino],
+        old,
+        fin,
+    ) && exists|p: PathV| #[trigger] old.files.contains_key(p) && old.files[p] == ino && old.in_cache_namespace(p) && parent(p) == dir)) by {
+        if fin.inodes[ino] != old.inodes[ino] {
+            let i = choose|i: int| 0 <= i < mb.len() && old.files.contains_key(rpath(#[trigger] mb[i])) && old.files[rpath(mb[i])] == ino && restamped(old.inodes[ino], fin.inodes[ino], old, fin);
+            lemma_child(dir, mb[i].entry.name());
+            assert(old.files.contains_key(rpath(mb[i])) && old.in_cache_namespace(rpath(mb[i])));
+        }
+    }
+}
+
+/// The frame only looks at the filesystem part, the clock and the granularity of its first argument.
+pub proof fn lemma_frame_rebase(old: World, wc: World, fin: World, ev: Seq<CachedFile>, mb: Seq<CachedFile>)
+    requires
+        maint_frame(wc, fin, ev, mb),
+        wc.same_fs(old),
+        wc.now == old.now,
+        wc.gran == old.gran,
+    ensures
+        maint_frame(old, fin, ev, mb),
+{
+    assert forall|ino: InodeId| #[trigger] old.inodes.contains_key(ino) implies fin.inodes.contains_key(ino) && (fin.inodes[ino] == old.inodes[ino] || exists|i: int|
+        0 <= i < mb.len() && old.files.contains_key(rpath(#[trigger] mb[i])) && old.files[rpath(mb[i])] == ino && restamped(old.inodes[ino], fin.inodes[ino], old, fin)) by {
+        if fin.inodes[ino] != old.inodes[ino] {
+            let i = choose|i: int| 0 <= i < mb.len() && wc.files.contains_key(rpath(#[trigger] mb[i])) && wc.files[rpath(mb[i])] == ino && restamped(wc.inodes[ino], fin.inodes[ino], wc, fin);
+            assert(restamped(old.inodes[ino], fin.inodes[ino], old, fin));
+        }
+    }
+}
+
+pub proof fn lemma_done_rebase(old: World, wc: World, fin: World, ev: Seq<CachedFile>, mb: Seq<CachedFile>)
+    requires
+        maint_done(wc, fin, ev, mb),
+        wc.same_fs(old),
+        wc.now == old.now,
+        wc.gran == old.gran,
+    ensures
+        maint_done(old, fin, ev, mb),
+{
+    assert forall|i: int| 0 <= i < mb.len() && fin.files.contains_key(rpath(#[trigger] mb[i])) implies restamped(old.inode_at(rpath(mb[i])), fin.inode_at(rpath(mb[i])), old, fin) by {
+        assert(restamped(wc.inode_at(rpath(mb[i])), fin.inode_at(rpath(mb[i])), wc, fin));
+    }
+}
+
+/// Every element of a plan is one of the records it was computed from.
+pub proof fn lemma_plan_subset(recs: Seq<CachedFile>, ev: Seq<CachedFile>, mb: Seq<CachedFile>, dir: PathV)
+    requires
+        ev.to_multiset().add(mb.to_multiset()).subset_of(recs.to_multiset()),
+        evictable_records(recs, dir),
+    ensures
+        evictable_records(ev, dir),
+        evictable_records(mb, dir),
+{
+    broadcast use vstd::seq_lib::group_to_multiset_ensures;
+    assert forall|i: int| 0 <= i < ev.len() implies (#[trigger] ev[i]).entry.dir() == dir && single_component(ev[i].entry.name()) && ev[i].entry.name()[0] != 0x2e by {
+        assert(ev.contains(ev[i]));
+        assert(ev.to_multiset().count(ev[i]) > 0);
+        assert(ev.to_multiset().add(mb.to_multiset()).count(ev[i]) > 0);
+        assert(recs.to_multiset().count(ev[i]) > 0);
+        assert(recs.contains(ev[i]));
+        let j = choose|j: int| 0 <= j < recs.len() && recs[j] == ev[i];
+    }
+    assert forall|i: int| 0 <= i < mb.len() implies (#[trigger] mb[i]).entry.dir() == dir && single_component(mb[i].entry.name()) && mb[i].entry.name()[0] != 0x2e by {
+        assert(mb.contains(mb[i]));
+        assert(mb.to_multiset().count(mb[i]) > 0);
+        assert(ev.to_multiset().add(mb.to_multiset()).count(mb[i]) > 0);
+        assert(recs.to_multiset().count(mb[i]) > 0);
+        assert(recs.contains(mb[i]));
+        let j = choose|j: int| 0 <= j < recs.len() && recs[j] == mb[i];
+    }
+}
+
+/// C07, the completed fault-free run: the plan is the Second Chance plan over the directory's regular files
+/// (queue position = mtime, read mark = atime >= mtime), and it has been applied.
+pub open spec fn prune_exact(old: World, fin: World, dir: PathV, cap: nat, recs: Seq<CachedFile>, ev: Seq<CachedFile>, mb: Seq<CachedFile>) -> bool {
+    &&& records_ok(recs, old, dir)
+    &&& all_files_recorded(recs, old, dir)
+    &&& plan_is_second_chance(recs, cap, |e: CachedFile| e.spec_rank(), |e: CachedFile| e.spec_accessed(), ev, mb)
+    &&& maint_frame(old, fin, ev, mb)
+    &&& maint_done(old, fin, ev, mb)
+}
+''')
+
+    pr = u.under_contract(u.item('src/raw_cache.rs', ['fn prune']), ['C07', 'C17', 'C02', 'C05', 'C06', 'C09', 'C18', 'C15', 'C10', 'C11'])
+    pr.air = 'raw_cache::prune'
+    pr.add_param(W)
+    pr.add_arg('collect_cached_files', TW)
+    pr.add_arg('apply_update', TW)
+    pr.contract(
+        requires=[('', 'old(w).inv()'),
+                  ('C15 C16:maintenance-runs-on-a-configured-read-write-cache-directory',
+                   'old(w).cache_dirs.contains(pbv(cache_dir)) && (forall|n: Seq<u8>| !old(w).under_ro(#[trigger] child(pbv(cache_dir), n)))')],
+        ensures=[
+            INV, BOOK,
+            ('C17 C07 C02:only-evictable-files-of-this-directory-are-deleted-or-restamped', 'prune_frame(*old(w), *final(w), pbv(cache_dir))'),
+            ('C07:exactly-the-second-chance-plan-is-applied',
+             'r.is_ok() && final(w).hard_faults == old(w).hard_faults ==> exists|recs: Seq<CachedFile>, ev: Seq<CachedFile>, mb: Seq<CachedFile>| '
+             '#[trigger] prune_exact(*old(w), *final(w), pbv(cache_dir), capacity as nat, recs, ev, mb) && r.unwrap().1 == ev.len() '
+             '&& ev.len() == (if recs.len() <= capacity { 0 } else { recs.len() - capacity })'),
+            ('C06:linear-in-the-number-of-directory-entries',
+             'final(w).steps <= old(w).steps + 2 + 3 * (final(w).listed - old(w).listed) && final(w).opens == old(w).opens + 1 && final(w).published == old(w).published'),
+            ('C05 C18:error-is-a-missing-directory-or-a-real-fault',
+             'r.is_err() ==> final(w).hard_faults > old(w).hard_faults || (absent_err(err_of(r)) && !old(w).dirs.contains(pbv(cache_dir)) && final(w).same_fs(*old(w)))'),
+        ])
+    pr.insert_before('let update =', 'let ghost recs = cached_files@;\n    let ghost w1 = *w;\n    let ghost dir = pbv(cache_dir);\n    ')
+    pr.insert_before('let num_evicted =',
+                     'let ghost ev = update.to_evict@;\n    let ghost mb = update.to_move_back@;\n'
+                     '    proof {\n'
+                     '        let key = |e: CachedFile| e.spec_rank();\n'
+                     '        let acc = |e: CachedFile| e.spec_accessed();\n'
+                     '        assert(plan_is_second_chance(recs, capacity as nat, key, acc, ev, mb));\n'
+                     '        lemma_plan_facts(recs, capacity as nat, key, acc, ev, mb);\n'
+                     '        assert(evictable_records(recs, dir));\n'
+                     '        lemma_plan_subset(recs, ev, mb, dir);\n'
+                     '        lemma_frame_refl(*old(w), ev, mb);\n'
+                     '        let wc = *w;\n'
+                     '        assert forall|fin: World| #[trigger] maint_frame(wc, fin, ev, mb) implies prune_frame(*old(w), fin, dir) && maint_frame(*old(w), fin, ev, mb) by {\n'
+                     '            lemma_frame_rebase(*old(w), wc, fin, ev, mb);\n'
+                     '            lemma_prune_frame(*old(w), fin, dir, ev, mb);\n'
+                     '        }\n'
+                     '        assert forall|fin: World| #[trigger] maint_done(wc, fin, ev, mb) implies maint_done(*old(w), fin, ev, mb) by {\n'
+                     '            lemma_done_rebase(*old(w), wc, fin, ev, mb);\n'
+                     '        }\n'
+                     '    }\n    ')
+    pr.insert_before('Ok ( ( count - ( num_evicted as u64 ) , num_evicted ) )',
+                     'proof {\n'
+                     '        if w.hard_faults == old(w).hard_faults {\n'
+                     '            assert(prune_exact(*old(w), *w, dir, capacity as nat, recs, ev, mb));\n'
+                     '        }\n'
+                     '    }\n    ')
     u.text('}\n')
 
 
@@ -664,7 +832,7 @@ def weave_cache_dir_head(u):
     u.text('pub mod cache_dir {\n' + MOD_HEAD + 'use crate::benign_error::is_absent_file_error;\nuse crate::raw_cache;\n'
            'use crate::trigger::PeriodicTrigger;\nuse crate::std::fs::File;\n')
     INV = ('C02 C18:valid-on-every-exit', 'final(w).inv()')
-    BOOK = ('', 'final(w).kept(*old(w))')
+    BOOK = ('', 'final(w).kept(*old(w)) && final(w).listed == old(w).listed')
 
     f = u.under_contract(u.item('src/cache_dir.rs', ['fn validate_file_name']), ['C16'])
     f.air = 'cache_dir::validate_file_name'
